@@ -2,4 +2,4 @@ Require Extraction.
 From Coq Require Import ExtrOcamlBasic.
 From Cloak Require Import Model.Datagram.
 Extraction Blacklist List String Int.
-Extraction "../ocaml/gen/c14.ml" dg_init steps dg_write dg_read dg_close max_unit usw_write route_udp_up ss_opened ssteps.
+Extraction "../ocaml/gen/c14.ml" dg_init steps dg_write dg_read dg_close max_unit usw_write relay_up relay_buf relay_buf_prefix route_udp_up relay_down route_udp_down stream_read_from_dgram ss_opened ssteps.
